@@ -9,7 +9,7 @@ GENS = ['units', 'consts']
 TARGETS = ['BC.Props.C05']
 PROP_FILES = ['BC/Props/C05.lean', 'BC/Lemmas/Row.lean']
 # source ties: function bodies regenerated from the Python source by translate/t_funcs.py, proved equal to the model functions
-SRC = {'module': 'BC.Props.C05Src', 'file': 'BC/Props/C05Src.lean',
+SRC = {'module': 'BC.Props.C05Src', 'file': 'BC/Props/C05Src.lean', 'lemma_files': ['BC/Lemmas/SrcTac.lean'],
        'theorems': ['C05_src_get_correction', 'C05_src_energy', 'C05_src_ogw', 'C05_src_spin_drift', 'C05_src_stability', 'C05_src_row']}
 THEOREMS = ['C05_columns', 'C05_mach_zero_rejected', 'C05_sight_line_geometry', 'C05_adjustments', 'C05_angle', 'C05_energy_is_kinetic',
             'C05_spin_drift', 'C05_stability']
